@@ -18,8 +18,8 @@ PARTS = {
 }
 
 TIERS = {
-    "quick": dict(strlen=2, rich="FALSE", random_jobs=4, bases=60, edits=12, verify_every=6),
-    "thorough": dict(strlen=3, rich="TRUE", random_jobs=8, bases=300, edits=16, verify_every=4),
+    "quick": dict(strlen=2, rich="FALSE", random_jobs=4, bases=60, edits=12, verify_every=8),
+    "thorough": dict(strlen=3, rich="TRUE", random_jobs=8, bases=300, edits=16, verify_every=5),
 }
 
 ASSUMPTIONS = [
@@ -288,7 +288,7 @@ def run(prop, tier):
              "digest was produced; all observations are grouped by digest and validated by TLC "
              "(equal digest <=> equal Excl over all pairs of the batch, outcome table per observation)",
         samples=samples, assumptions=ASSUMPTIONS,
-        extra=dict(plays_emitted_by_tlc=len(flats), plays_total=len(plays), digest_classes=len(classes),
+        extra=dict(plays_emitted_by_tlc=len(flats), plays_total=len(set(e["p"] for e in events)), revocation_list_documents=len([o for o in origin if o == "listdoc"]), digest_classes=len(classes),
                    classes_with_several_plays=len([d for d in classes if len(set(e["p"] for e in classes[d])) > 1]),
                    plays_never_accepted=len(noacc), random_plays=len([o for o in origin if o.startswith("random")]),
                    reached=reach, binding_selftest=selftest,
